@@ -96,6 +96,90 @@ theorem rich_draw_exactly_the_lines (lb : Nat → Nat → Bool) (maxW maxH : UIn
   obtain ⟨s, h1, h2, _, h4, h5⟩ := rich_draw_rows lb maxW maxH cells ls hls' hlw
   exact ⟨ls, s, hls', h1, h2, h4, h5⟩
 
+/-- **Nothing of an emitted line is clipped** (Draw ∘ scanner ∘ `line_width`): for every line `y`
+below `Max.Height`, every grapheme of positive width of the line without its trailing whitespace is
+on the surface, at the column equal to the display width of the graphemes before it — because the
+scanner keeps every line (trailing whitespace aside) within `Max.Width`, or makes it a single
+over-wide grapheme, and `findContainerSize` makes the surface as wide as the line or `Max.Width`. -/
+theorem rich_draw_nothing_clipped (lb : Nat → Nat → Bool) (maxW maxH : UInt16) (cells : List Cell)
+    (ls : List (List Cell)) (h : richLines lb maxW.toNat cells = .ok ls) (hw : ∀ l ∈ ls, sumW l < 65536) :
+    ∃ s, richDraw lb maxW maxH cells = .ok s ∧
+      ∀ y l, ls[y]? = some l → y < maxH.toNat →
+        ∀ j c, (Wrap.trimRight l)[j]? = some c → 0 < c.w →
+          cellAt s (sumW (l.take j)) y = some (toWin c) := by
+  obtain ⟨s, h1, hH, hW, _, hcell⟩ := rich_draw_rows lb maxW maxH cells ls h hw
+  refine ⟨s, h1, ?_⟩
+  intro y l hy hyM j c hj hc
+  have hyl : y < ls.length := by
+    rcases Nat.lt_or_ge y ls.length with h' | h'
+    · exact h'
+    · rw [List.getElem?_eq_none h'] at hy; cases hy
+  have hlmem : l ∈ ls := List.mem_of_getElem? hy
+  have hys : y < s.h.toNat := by rw [hH]; omega
+  have hmaxW : maxW.toNat ≠ 0 := by
+    intro h0
+    have : ls = [] := by
+      have h' := h
+      simp only [richLines, Wrap.lines, h0] at h'
+      exact scanAll_width_zero _ _ _ _ _ _ h'
+    rw [this] at hyl; simp at hyl
+  have hlw : VaxisModel.Spec.Wrap.lineWidthOK maxW.toNat l = true :=
+    VaxisModel.Lemmas.Wrap.scanAll_width (Wrap.richOracle lb) () maxW.toNat _ cells () ls h l hlmem
+  -- the surface is at least min (width of the line) Max.Width wide
+  have hall : ∀ l' ∈ (ls.map (·.map toWin)).take maxH.toNat, (∀ c ∈ l', 0 ≤ c.w) ∧ width l' < 65536 := by
+    intro l' hl'
+    obtain ⟨l0, hl0, rfl⟩ := List.mem_map.mp (List.mem_of_mem_take hl')
+    refine ⟨?_, by rw [width_toWin]; exact hw l0 hl0⟩
+    intro c hc
+    obtain ⟨c0, _, rfl⟩ := List.mem_map.mp hc
+    simp [toWin]
+  have hmem' : l.map toWin ∈ (ls.map (·.map toWin)).take maxH.toNat := by
+    apply List.mem_of_getElem? (i := y)
+    rw [List.getElem?_take_of_lt hyM, List.getElem?_map, hy]; rfl
+  have hWge := (widthFold_ge maxW _ 0 (by rw [UInt16.le_iff_toNat_le]; simp) hall).2.2 _ hmem'
+  rw [← hW, width_toWin] at hWge
+  obtain ⟨hlj, htake⟩ := trimRight_prefix l j c hj
+  have hps := sumW_take_getElem (Wrap.trimRight l) j c hj
+  have htl := VaxisModel.Lemmas.Wrap.sumW_trimRight_le l
+  have hjlen : j < (Wrap.trimRight l).length := by
+    rcases Nat.lt_or_ge j (Wrap.trimRight l).length with h' | h'
+    · exact h'
+    · rw [List.getElem?_eq_none h'] at hj; cases hj
+  have hx : sumW (l.take j) < s.w.toNat := by
+    rw [htake]
+    simp only [VaxisModel.Spec.Wrap.lineWidthOK, Bool.or_eq_true, decide_eq_true_eq,
+      VaxisModel.Lemmas.Wrap.trimTrailing_eq, VaxisModel.Lemmas.Wrap.natWidth_eq_sumW] at hlw
+    rcases hlw with h' | h'
+    · omega
+    · split at h'
+      · rename_i c' hc'
+        rw [hc'] at hjlen hps ⊢
+        simp only [List.length_singleton] at hjlen
+        have hj0 : j = 0 := by omega
+        subst hj0
+        simp only [decide_eq_true_eq] at h'
+        rw [hc'] at htl
+        simp only [Wrap.sumW] at htl
+        simp only [List.take_zero, Wrap.sumW]
+        omega
+      · cases h'
+  rw [hcell _ y hx hys]
+  have hgd : ls.getD y [] = l := by
+    rw [List.getD_eq_getElem?_getD, hy]; rfl
+  rw [hgd]
+  have hjl : j < (l.map toWin).length := by
+    rw [List.length_map]
+    rcases Nat.lt_or_ge j l.length with h' | h'
+    · exact h'
+    · rw [List.getElem?_eq_none h'] at hlj; cases hlj
+  have hget : (l.map toWin)[j] = toWin c := by
+    have : (l.map toWin)[j]? = some (toWin c) := by rw [List.getElem?_map, hlj]; rfl
+    rw [List.getElem?_eq_getElem hjl] at this
+    exact Option.some.inj this
+  have := over_hit (l.map toWin) 0 (fun _ => some default) j hjl (by rw [hget]; simp [toWin]; omega)
+  rw [hget, ← List.map_take, width_toWin, Nat.zero_add] at this
+  exact this
+
 /-- **`Text.Draw` (soft wrap)**: the same, every cell in the widget's style, the surface filled with
 that style (`s.Fill(t.Style)`), a tab of the line shown as `ctx.Characters` expands it (`expand`). -/
 theorem text_draw_rows {σ : Type} (seg : σ → List Cell → Nat × Bool × σ) (st0 : σ)
